@@ -570,8 +570,9 @@ def reg_list_to_mask(reg_list):
 
 class StrBase(RiscvInstruction):
     def encode(self):
-        imml5 = self.offset & 0x1F
-        immh7 = (self.offset >> 5) & 0x7F
+        imm12 = wrap_negative(self.offset, 12)
+        imml5 = imm12 & 0x1F
+        immh7 = (imm12 >> 5) & 0x7F
         tokens = self.get_tokens()
         tokens[0][0:7] = 0b0100011
         tokens[0][7:12] = imml5
